@@ -258,14 +258,14 @@ BH = r'''
 typedef int S;
 #define FOR(i, n) for (unsigned long i = 0; i < (unsigned long)(n); ++i)
 static S nd_e(void) { S v = nondet_int(); __CPROVER_assume(v >= 0 && v <= DOM); return v; }
-static void mk_in(MatI *m, unsigned long r, unsigned long c) { m->rows = r; m->cols = c; FOR(i, MAT_B) FOR(j, MAT_B) m->d[i][j] = (i < r && j < c) ? nd_e() : nondet_int(); }
-static void mk_out(MatI *m, unsigned long r, unsigned long c) { m->rows = r; m->cols = c; FOR(i, MAT_B) FOR(j, MAT_B) m->d[i][j] = nondet_int(); }
+static void mk_in(MatI *m, unsigned long r, unsigned long c) { m->rows = r; m->cols = c; FOR(i, MAT_B) FOR(j, MAT_B) MDP(m, i, j) = (i < r && j < c) ? nd_e() : nondet_int(); }
+static void mk_out(MatI *m, unsigned long r, unsigned long c) { m->rows = r; m->cols = c; FOR(i, MAT_B) FOR(j, MAT_B) MDP(m, i, j) = nondet_int(); }
 static void mk_vec(Vec_int *v, unsigned long n) { v->d = (int*)verif_new_array(VEC_BCAP, sizeof(int)); v->n = n; FOR(i, VEC_BCAP) v->d[i] = (i < n) ? nd_e() : nondet_int(); }
-#define UNCHANGED(m, m0) do { __CPROVER_assert((m).rows == (m0).rows && (m).cols == (m0).cols, "input/raising case: shape unchanged"); FOR(i_, MAT_B) FOR(j_, MAT_B) __CPROVER_assert((m).d[i_][j_] == (m0).d[i_][j_], "input/raising case: cells unchanged"); } while (0)
+#define UNCHANGED(m, m0) do { __CPROVER_assert((m).rows == (m0).rows && (m).cols == (m0).cols, "input/raising case: shape unchanged"); FOR(i_, MAT_B) FOR(j_, MAT_B) __CPROVER_assert(MD(m, i_, j_) == MD(m0, i_, j_), "input/raising case: cells unchanged"); } while (0)
 #define SHAPE(m, r, c) __CPROVER_assert((m).rows == (unsigned long)(r) && (m).cols == (unsigned long)(c), "output has the definitional shape")
 #define RAISED_DIM() __CPROVER_assert(verif_exc == EXC_DimensionException, "non-conformable operands raise DimensionException")
 #define NOT_RAISED() __CPROVER_assert(verif_exc == 0, "conformable operands do not raise")
-#define ENTRY(m, i, j, v) __CPROVER_assert((m).d[i][j] == (v), "output entry equals the textbook definition")
+#define ENTRY(m, i, j, v) __CPROVER_assert(MD(m, i, j) == (v), "output entry equals the textbook definition")
 #define CANARY() __CPROVER_assert(0, "verif_canary reachable after call")
 '''
 
@@ -280,14 +280,14 @@ H['mult3'] = r'''
 void h(void) { MatI A, B, O; mk_in(&A, NRA, NCA); mk_in(&B, NRB, NCB); mk_out(&O, ORI, OCI); MatI A0 = A, B0 = B, O0 = O; verif_exc = 0;
   MatrixTools__mult3_i(&A, &B, &O);
   if (NCA != NRB) { RAISED_DIM(); UNCHANGED(O, O0); }
-  else { NOT_RAISED(); SHAPE(O, NRA, NCB); FOR(i, NRA) FOR(j, NCB) { S s = 0; FOR(k, NCA) s += A0.d[i][k] * B0.d[k][j]; ENTRY(O, i, j, s); } }
+  else { NOT_RAISED(); SHAPE(O, NRA, NCB); FOR(i, NRA) FOR(j, NCB) { S s = 0; FOR(k, NCA) s += MD(A0, i, k) * MD(B0, k, j); ENTRY(O, i, j, s); } }
   UNCHANGED(A, A0); UNCHANGED(B, B0); CANARY(); }
 '''
 H['mult_diag'] = r'''
 void h(void) { MatI A, B, O; Vec_int D; mk_in(&A, NRA, NCA); mk_in(&B, NRB, NCB); mk_vec(&D, ND); mk_out(&O, ORI, OCI); MatI A0 = A, B0 = B, O0 = O; verif_exc = 0;
   MatrixTools__mult_diag_i(&A, &D, &B, &O);
   if (NCA != NRB || ND != NCA) { RAISED_DIM(); UNCHANGED(O, O0); }
-  else { NOT_RAISED(); SHAPE(O, NRA, NCB); FOR(i, NRA) FOR(j, NCB) { S s = 0; FOR(k, NCA) s += A0.d[i][k] * D.d[k] * B0.d[k][j]; ENTRY(O, i, j, s); } }
+  else { NOT_RAISED(); SHAPE(O, NRA, NCB); FOR(i, NRA) FOR(j, NCB) { S s = 0; FOR(k, NCA) s += MD(A0, i, k) * D.d[k] * MD(B0, k, j); ENTRY(O, i, j, s); } }
   UNCHANGED(A, A0); UNCHANGED(B, B0); CANARY(); }
 '''
 H['mult_tridiag'] = r'''
@@ -296,7 +296,7 @@ void h(void) { MatI A, B, O; Vec_int D, U, L; mk_in(&A, NRA, NCA); mk_in(&B, NRB
   if (NCA != NRB || ND != NCA || NU + 1 != NCA) { RAISED_DIM(); UNCHANGED(O, O0); }
   else { NOT_RAISED(); SHAPE(O, NRA, NCB);
     /* T tridiagonal: T(k,k) = D[k], T(k,k+1) = U[k], T(k+1,k) = L[k] */
-    FOR(i, NRA) FOR(j, NCB) { S s = 0; FOR(k, NCA) FOR(l, NCA) { S t = (k == l) ? D.d[k] : (l == k + 1) ? U.d[k] : (k == l + 1) ? L.d[l] : 0; s += A0.d[i][k] * t * B0.d[l][j]; } ENTRY(O, i, j, s); } }
+    FOR(i, NRA) FOR(j, NCB) { S s = 0; FOR(k, NCA) FOR(l, NCA) { S t = (k == l) ? D.d[k] : (l == k + 1) ? U.d[k] : (k == l + 1) ? L.d[l] : 0; s += MD(A0, i, k) * t * MD(B0, l, j); } ENTRY(O, i, j, s); } }
   UNCHANGED(A, A0); UNCHANGED(B, B0); CANARY(); }
 '''
 H['mult_cplx'] = r'''
@@ -305,7 +305,7 @@ void h(void) { MatI A, iA, B, iB, O, iO; mk_in(&A, NRA, NCA); mk_in(&iA, NRA, NC
   MatrixTools__mult_cplx_i(&A, &iA, &B, &iB, &O, &iO);
   if (NCA != NRB) { RAISED_DIM(); UNCHANGED(O, O0); UNCHANGED(iO, iO0); }
   else { NOT_RAISED(); SHAPE(O, NRA, NCB); SHAPE(iO, NRA, NCB);
-    FOR(i, NRA) FOR(j, NCB) { S re = 0, im = 0; FOR(k, NCA) { re += A0.d[i][k] * B0.d[k][j] - iA0.d[i][k] * iB0.d[k][j]; im += A0.d[i][k] * iB0.d[k][j] + iA0.d[i][k] * B0.d[k][j]; } ENTRY(O, i, j, re); ENTRY(iO, i, j, im); } }
+    FOR(i, NRA) FOR(j, NCB) { S re = 0, im = 0; FOR(k, NCA) { re += MD(A0, i, k) * MD(B0, k, j) - MD(iA0, i, k) * MD(iB0, k, j); im += MD(A0, i, k) * MD(iB0, k, j) + MD(iA0, i, k) * MD(B0, k, j); } ENTRY(O, i, j, re); ENTRY(iO, i, j, im); } }
   UNCHANGED(A, A0); UNCHANGED(B, B0); UNCHANGED(iA, iA0); UNCHANGED(iB, iB0); CANARY(); }
 '''
 H['mult_cplx_diag'] = r'''
@@ -316,7 +316,7 @@ void h(void) { MatI A, iA, B, iB, O, iO; Vec_int D, iD; mk_in(&A, NRA, NCA); mk_
   else { NOT_RAISED(); SHAPE(O, NRA, NCB); SHAPE(iO, NRA, NCB);
     /* (A + i iA) diag(D + i iD) (B + i iB) */
     FOR(i, NRA) FOR(j, NCB) { S re = 0, im = 0; FOR(k, NCA) {
-        S ar = A0.d[i][k], ai = iA0.d[i][k], dr = D.d[k], di = iD.d[k], br = B0.d[k][j], bi = iB0.d[k][j];
+        S ar = MD(A0, i, k), ai = MD(iA0, i, k), dr = D.d[k], di = iD.d[k], br = MD(B0, k, j), bi = MD(iB0, k, j);
         S xr = ar * dr - ai * di, xi = ar * di + ai * dr;
         re += xr * br - xi * bi; im += xr * bi + xi * br; } ENTRY(O, i, j, re); ENTRY(iO, i, j, im); } }
   CANARY(); }
@@ -325,21 +325,21 @@ H['add'] = r'''
 void h(void) { MatI A, B; mk_in(&A, NRA, NCA); mk_in(&B, NRB, NCB); MatI A0 = A, B0 = B; verif_exc = 0;
   MatrixTools__add_i(&A, &B);
   if (NRA != NRB || NCA != NCB) { RAISED_DIM(); UNCHANGED(A, A0); }
-  else { NOT_RAISED(); SHAPE(A, NRA, NCA); FOR(i, NRA) FOR(j, NCA) ENTRY(A, i, j, A0.d[i][j] + B0.d[i][j]); }
+  else { NOT_RAISED(); SHAPE(A, NRA, NCA); FOR(i, NRA) FOR(j, NCA) ENTRY(A, i, j, MD(A0, i, j) + MD(B0, i, j)); }
   UNCHANGED(B, B0); CANARY(); }
 '''
 H['add_scaled'] = r'''
 void h(void) { MatI A, B; mk_in(&A, NRA, NCA); mk_in(&B, NRB, NCB); MatI A0 = A, B0 = B; S x = nd_e(); S x0 = x; verif_exc = 0;
   MatrixTools__add_scaled_i(&A, &x, &B);
   if (NRA != NRB || NCA != NCB) { RAISED_DIM(); UNCHANGED(A, A0); }
-  else { NOT_RAISED(); SHAPE(A, NRA, NCA); FOR(i, NRA) FOR(j, NCA) ENTRY(A, i, j, A0.d[i][j] + x0 * B0.d[i][j]); }
+  else { NOT_RAISED(); SHAPE(A, NRA, NCA); FOR(i, NRA) FOR(j, NCA) ENTRY(A, i, j, MD(A0, i, j) + x0 * MD(B0, i, j)); }
   UNCHANGED(B, B0); CANARY(); }
 '''
 H['hadamard'] = r'''
 void h(void) { MatI A, B, O; mk_in(&A, NRA, NCA); mk_in(&B, NRB, NCB); mk_out(&O, ORI, OCI); MatI A0 = A, B0 = B, O0 = O; verif_exc = 0;
   MatrixTools__hadamard_i(&A, &B, &O);
   if (NRA != NRB || NCA != NCB) { RAISED_DIM(); UNCHANGED(O, O0); }
-  else { NOT_RAISED(); SHAPE(O, NRA, NCA); FOR(i, NRA) FOR(j, NCA) ENTRY(O, i, j, A0.d[i][j] * B0.d[i][j]); }
+  else { NOT_RAISED(); SHAPE(O, NRA, NCA); FOR(i, NRA) FOR(j, NCA) ENTRY(O, i, j, MD(A0, i, j) * MD(B0, i, j)); }
   UNCHANGED(A, A0); UNCHANGED(B, B0); CANARY(); }
 '''
 H['hadamard_cplx'] = r'''
@@ -348,14 +348,14 @@ void h(void) { MatI A, iA, B, iB, O, iO; mk_in(&A, NRA, NCA); mk_in(&iA, NRA, NC
   MatrixTools__hadamard_cplx_i(&A, &iA, &B, &iB, &O, &iO);
   if (NRA != NRB || NCA != NCB) { RAISED_DIM(); UNCHANGED(O, O0); UNCHANGED(iO, iO0); }
   else { NOT_RAISED(); SHAPE(O, NRA, NCA); SHAPE(iO, NRA, NCA);
-    FOR(i, NRA) FOR(j, NCA) { ENTRY(O, i, j, A0.d[i][j] * B0.d[i][j] - iA0.d[i][j] * iB0.d[i][j]); ENTRY(iO, i, j, iA0.d[i][j] * B0.d[i][j] + A0.d[i][j] * iB0.d[i][j]); } }
+    FOR(i, NRA) FOR(j, NCA) { ENTRY(O, i, j, MD(A0, i, j) * MD(B0, i, j) - MD(iA0, i, j) * MD(iB0, i, j)); ENTRY(iO, i, j, MD(iA0, i, j) * MD(B0, i, j) + MD(A0, i, j) * MD(iB0, i, j)); } }
   CANARY(); }
 '''
 H['hadamard_vec'] = r'''
 void h(void) { MatI A, O; Vec_int B; mk_in(&A, NRA, NCA); mk_vec(&B, ND); mk_out(&O, ORI, OCI); MatI A0 = A, O0 = O; _Bool row = ROW; verif_exc = 0;
   MatrixTools__hadamard_vec_i(&A, &B, &O, row);
   if ((row && NRA != ND) || (!row && NCA != ND)) { RAISED_DIM(); UNCHANGED(O, O0); }
-  else { NOT_RAISED(); SHAPE(O, NRA, NCA); FOR(i, NRA) FOR(j, NCA) ENTRY(O, i, j, A0.d[i][j] * (row ? B.d[i] : B.d[j])); }
+  else { NOT_RAISED(); SHAPE(O, NRA, NCA); FOR(i, NRA) FOR(j, NCA) ENTRY(O, i, j, MD(A0, i, j) * (row ? B.d[i] : B.d[j])); }
   UNCHANGED(A, A0); CANARY(); }
 '''
 H['unary'] = r'''
@@ -374,7 +374,7 @@ H['diag_get'] = r'''
 void h(void) { MatI M; Vec_int O; mk_in(&M, NRA, NCA); mk_vec(&O, ND); MatI M0 = M; unsigned long n0 = O.n; verif_exc = 0;
   MatrixTools__diag_get_i(&M, &O);
   if (NRA != NCA) { RAISED_DIM(); __CPROVER_assert(O.n == n0, "raising case: output length unchanged"); }
-  else { NOT_RAISED(); __CPROVER_assert(O.n == NRA, "output has the definitional length"); FOR(i, NRA) __CPROVER_assert(O.d[i] == M0.d[i][i], "output entry equals the textbook definition"); }
+  else { NOT_RAISED(); __CPROVER_assert(O.n == NRA, "output has the definitional length"); FOR(i, NRA) __CPROVER_assert(O.d[i] == MD(M0, i, i), "output entry equals the textbook definition"); }
   UNCHANGED(M, M0); CANARY(); }
 '''
 H['inplace'] = r'''
@@ -393,7 +393,7 @@ H['directSum'] = r'''
 void h(void) { MatI A, B, O; mk_in(&A, NRA, NCA); mk_in(&B, NRB, NCB); mk_out(&O, ORI, OCI); MatI A0 = A, B0 = B; verif_exc = 0;
   MatrixTools__directSum_i(&A, &B, &O);
   NOT_RAISED(); SHAPE(O, NRA + NRB, NCA + NCB);
-  FOR(i, NRA + NRB) FOR(j, NCA + NCB) ENTRY(O, i, j, (i < NRA && j < NCA) ? A0.d[i][j] : (i >= NRA && j >= NCA) ? B0.d[i - NRA][j - NCA] : 0);
+  FOR(i, NRA + NRB) FOR(j, NCA + NCB) ENTRY(O, i, j, (i < NRA && j < NCA) ? MD(A0, i, j) : (i >= NRA && j >= NCA) ? MD(B0, i - NRA, j - NCA) : 0);
   UNCHANGED(A, A0); UNCHANGED(B, B0); CANARY(); }
 '''
 H['kron'] = r'''
@@ -404,14 +404,14 @@ void h(void) { MatI A, B, O; mk_in(&A, NRA, NCA); mk_in(&B, NRB, NCB); mk_out(&O
   UNCHANGED(A, A0); UNCHANGED(B, B0); CANARY(); }
 '''
 H['pow'] = r'''
-static void mm(const MatI *X, const MatI *Y, MatI *Z, unsigned long n) { FOR(i, n) FOR(j, n) { S s = 0; FOR(k, n) s += X->d[i][k] * Y->d[k][j]; Z->d[i][j] = s; } }
+static void mm(const MatI *X, const MatI *Y, MatI *Z, unsigned long n) { FOR(i, n) FOR(j, n) { S s = 0; FOR(k, n) s += MDP(X, i, k) * MDP(Y, k, j); MDP(Z, i, j) = s; } }
 void h(void) { MatI A, O; mk_in(&A, NRA, NCA); mk_out(&O, ORI, OCI); MatI A0 = A, O0 = O; verif_exc = 0;
   MatrixTools__pow_i(&A, P, &O);
   if (NRA != NCA) { RAISED_DIM(); UNCHANGED(O, O0); }
   else { NOT_RAISED(); SHAPE(O, NRA, NRA);
-    MatI R, T; FOR(i, NRA) FOR(j, NRA) R.d[i][j] = (i == j) ? 1 : 0;     /* A^0 = I */
-    FOR(q, P) { mm(&R, &A0, &T, NRA); FOR(i, NRA) FOR(j, NRA) R.d[i][j] = T.d[i][j]; }
-    FOR(i, NRA) FOR(j, NRA) ENTRY(O, i, j, R.d[i][j]); }
+    MatI R, T; FOR(i, NRA) FOR(j, NRA) MD(R, i, j) = (i == j) ? 1 : 0;     /* A^0 = I */
+    FOR(q, P) { mm(&R, &A0, &T, NRA); FOR(i, NRA) FOR(j, NRA) MD(R, i, j) = MD(T, i, j); }
+    FOR(i, NRA) FOR(j, NRA) ENTRY(O, i, j, MD(R, i, j)); }
   UNCHANGED(A, A0); CANARY(); }
 '''
 
@@ -437,22 +437,22 @@ def generate_jobs(unit, tier):
                 base = dict(NRA=nra, NCA=nca, ORI=ori, OCI=oci)
                 # unary routines
                 for fn, call, outr, outc, spec in (
-                        ('copy', 'MatrixTools__copy_i(&A, &O)', 'NRA', 'NCA', 'A0.d[i][j]'),
-                        ('transpose', 'MatrixTools__transpose_i(&A, &O)', 'NCA', 'NRA', 'A0.d[j][i]'),
-                        ('copyUp', 'MatrixTools__copyUp_i(&A, &O)', 'NRA', 'NCA', '(i + 1 < NRA ? A0.d[i + 1][j] : 0)'),
-                        ('copyDown', 'MatrixTools__copyDown_i(&A, &O)', 'NRA', 'NCA', '(i >= 1 ? A0.d[i - 1][j] : 0)')):
+                        ('copy', 'MatrixTools__copy_i(&A, &O)', 'NRA', 'NCA', 'MD(A0, i, j)'),
+                        ('transpose', 'MatrixTools__transpose_i(&A, &O)', 'NCA', 'NRA', 'MD(A0, j, i)'),
+                        ('copyUp', 'MatrixTools__copyUp_i(&A, &O)', 'NRA', 'NCA', '(i + 1 < NRA ? MD(A0, i + 1, j) : 0)'),
+                        ('copyDown', 'MatrixTools__copyDown_i(&A, &O)', 'NRA', 'NCA', '(i >= 1 ? MD(A0, i - 1, j) : 0)')):
                     J(fn, t, _defs(CALL=call, OUTR=outr, OUTC=outc, SPEC=spec, **base), H['unary'])
                 for fn, call, spec in (
                         ('fill', 'MatrixTools__fill_i(&M, x)', 'x'),
-                        ('fillDiag', 'MatrixTools__fillDiag_i(&M, x)', '(i == j ? x : M0.d[i][j])'),
-                        ('scale', 'MatrixTools__scale_i(&M, x, y)', '(x * M0.d[i][j] + y)')):
+                        ('fillDiag', 'MatrixTools__fillDiag_i(&M, x)', '(i == j ? x : MD(M0, i, j))'),
+                        ('scale', 'MatrixTools__scale_i(&M, x, y)', '(x * MD(M0, i, j) + y)')):
                     if ori == MATB:
                         J(fn, 'M%dx%d' % (nra, nca), _defs(CALL=call, SPEC=spec, **base), H['inplace'])
                 if ori == MATB:
                     J('sumElements', 'M%dx%d' % (nra, nca), _defs(RTYPE='S', CALL='MatrixTools__sumElements_i(&M)',
-                      SPECBLOCK='{ S s = 0; FOR(i, NRA) FOR(j, NCA) s += M0.d[i][j]; __CPROVER_assert(r == s, "sum of the elements"); }', **base), H['scalar_result'])
+                      SPECBLOCK='{ S s = 0; FOR(i, NRA) FOR(j, NCA) s += MD(M0, i, j); __CPROVER_assert(r == s, "sum of the elements"); }', **base), H['scalar_result'])
                     J('isSymmetric', 'M%dx%d' % (nra, nca), _defs(RTYPE='_Bool', CALL='MatrixTools__isSymmetric_i(&M)',
-                      SPECBLOCK='{ _Bool s = (NRA == NCA); if (s) FOR(i, NRA) FOR(j, NCA) s = s && (M0.d[i][j] == M0.d[j][i]); __CPROVER_assert(r == s, "isSymmetric by definition"); }', **base), H['scalar_result'])
+                      SPECBLOCK='{ _Bool s = (NRA == NCA); if (s) FOR(i, NRA) FOR(j, NCA) s = s && (MD(M0, i, j) == MD(M0, j, i)); __CPROVER_assert(r == s, "isSymmetric by definition"); }', **base), H['scalar_result'])
                     for nd in D:
                         J('diag_get', 'M%dx%d_v%d' % (nra, nca, nd), _defs(ND=nd, **base), H['diag_get'])
                 for nd in D:
@@ -472,10 +472,10 @@ def generate_jobs(unit, tier):
                         J('mult3', tb, _defs(**bb), H['mult3'])
                         J('mult_cplx', tb, _defs(**bb), H['mult_cplx'])
                         if nra * nrb <= MATB and nca * ncb <= MATB:
-                            J('kron', tb, _defs(CALL='MatrixTools__kron_i(&A, &B, &O, 1)', SPEC='(A0.d[ia][ja] * B0.d[ib][jb])', **bb), H['kron'])
-                            J('kron_diag', tb, _defs(CALL='MatrixTools__kron_diag_i(&A, &B, &dA, &dB, &O, 1)', SPEC='((ia == ja ? dA : A0.d[ia][ja]) * (ib == jb ? dB : B0.d[ib][jb]))', **bb), H['kron'])
+                            J('kron', tb, _defs(CALL='MatrixTools__kron_i(&A, &B, &O, 1)', SPEC='(MD(A0, ia, ja) * MD(B0, ib, jb))', **bb), H['kron'])
+                            J('kron_diag', tb, _defs(CALL='MatrixTools__kron_diag_i(&A, &B, &dA, &dB, &O, 1)', SPEC='((ia == ja ? dA : MD(A0, ia, ja)) * (ib == jb ? dB : MD(B0, ib, jb)))', **bb), H['kron'])
                             if nrb == ncb:
-                                J('kron_dim', tb, _defs(CALL='MatrixTools__kron_dim_i(&A, NRB, &dB, &O, 1)', SPEC='(A0.d[ia][ja] * (ib == jb ? dB : 0))', **bb), H['kron'])
+                                J('kron_dim', tb, _defs(CALL='MatrixTools__kron_dim_i(&A, NRB, &dB, &O, 1)', SPEC='(MD(A0, ia, ja) * (ib == jb ? dB : 0))', **bb), H['kron'])
                         for nd in sorted({nca, (nca + 1) % (max(D) + 1)}):
                             J('mult_diag', tb + '_v%d' % nd, _defs(ND=nd, **bb), H['mult_diag'])
                             J('mult_cplx_diag', tb + '_v%d' % nd, _defs(ND=nd, **bb), H['mult_cplx_diag'])
